@@ -11,6 +11,10 @@ import (
 var counter int
 
 type pair struct{ a, b int }
+type pairP struct {
+	a int
+	p *int
+}
 
 func okStore(b []byte, i int, v byte) int {
 	b[i] = v
@@ -18,10 +22,10 @@ func okStore(b []byte, i int, v byte) int {
 }
 
 func BadOrder(b []byte) int { return int(b[0]) + okStore(b, 0, 1) }
-func BadLoop(b []byte) int {
+func BadLoop(k int) int {
 	n := 0
-	for _, x := range b {
-		n += int(x)
+	for i := range k {
+		n += i
 	}
 	return n
 }
@@ -38,7 +42,7 @@ func BadPtrValue(p *int) *int        { return p }
 func BadUnknownErr() error           { return errors.New("x") }
 func BadGlobalWrite(a int) int       { counter = a; return a }
 func BadAppendMut(b []byte) []byte   { b[0] = 1; return append(b, 2) }
-func BadStruct(p pair) int           { return p.a }
+func BadStruct(p pairP) int          { return p.a }
 func BadSlice3(b []byte) []byte      { return b[0:1:2] }
 func BadAssignMut(b []byte) int      { b[0] = 1; b = b[1:]; return len(b) }
 func BadGoto(a int) int {
@@ -81,12 +85,9 @@ func BadMapAlias(m map[int]int) int {
 	return m[1]
 }
 func BadMapReturn(m map[int]int) map[int]int { return m }
-func BadMapOk(m map[int]int) int {
-	v, ok := m[1]
-	if ok {
-		return v
-	}
-	return -1
+func BadTypeAssert(g getter) bool {
+	_, ok := g.(io.Reader)
+	return ok
 }
 func okBump(p *int) int { *p++; return *p }
 
@@ -216,3 +217,37 @@ func BadRangeString(s string) int {
 	}
 	return n
 }
+
+// windows, struct parameters, range over []byte (phase 3)
+type arena interface{ Alloc(n int) ([]byte, error) }
+
+func BadRegionRead(a arena) byte {
+	x, _ := a.Alloc(2)
+	return x[0]
+}
+func BadRegionPass(a arena) int {
+	x, _ := a.Alloc(2)
+	return okStore(x, 0, 1)
+}
+func BadRegionAppend(a arena) int {
+	x, _ := a.Alloc(2)
+	y := append(x, 1)
+	return len(y)
+}
+func BadRegionMix(a arena, b []byte) int {
+	x, _ := a.Alloc(2)
+	x = b
+	return len(x)
+}
+func okPair(p pair) int      { return p.a + p.b }
+func BadStructArg(a int) int { var p pair; p.a = a; return okPair(p) }
+func BadRangeMutBytes(b []byte) int {
+	for i := range b {
+		b[i] = 0
+	}
+	return len(b)
+}
+
+type cfg struct{ m map[int]int }
+
+func BadStructParamMapStore(c cfg) int { c.m[1] = 2; return 0 }
